@@ -428,7 +428,11 @@ def run(ck):
                 stats["history_steps"] += 1
                 rep = dict(cfg=spec, start=None, history=[list(h) for h in hist], state=state(H), target=state(target))
                 if state(F) != state(H):
-                    raise RuntimeError("harness could not rebuild the state of the history object")
+                    # setocc on an empty supercell in the order of H's chemorder must reproduce H: otherwise the implementation's
+                    # bookkeeping (C28) is off -- report with the history instead of stopping
+                    violation("c27-history-rebuild", "%s: after %s a fresh supercell filled by setocc in the listed order is %s, the history object is %s" %
+                              (label, [h[0] for h in hist], state(F), state(H)), rep)
+                    break
                 try:
                     dH, dF = H.defectindices(), F.defectindices()
                     kH, kF = H.KrogerVink(), F.KrogerVink()
